@@ -370,6 +370,22 @@ def _get_input_element_type(node: ir.Node, index: int) -> int:
     return ir.DataType.UNDEFINED.value
 
 
+def _int64_constant(op, node: ir.Node, values: int | Sequence[int]):
+    """Emit a Constant holding INT64 value(s), written in a form that exists in the opset of ``node``'s model.
+
+    ``value_int`` / ``value_ints`` were added to Constant in opset 12; a tensor ``value`` of any type is accepted
+    since opset 9. Returns None (no replacement) for older opsets.
+    """
+    version = node.graph.opset_imports.get("", None) if node.graph is not None else None
+    if version is None or version >= 12:
+        if isinstance(values, int):
+            return op.Constant(value_int=values)
+        return op.Constant(value_ints=ir.AttrInt64s("value_ints", list(values)))
+    if version >= 9:
+        return op.Constant(value=ir.tensor(np.array(values, dtype=np.int64)))
+    return None
+
+
 def _get_int_attribute(node: ir.Node, name: str, default: int | None = None) -> int | None:
     if name in node.attributes:
         attr = node.attributes[name]
@@ -458,7 +474,7 @@ def gather(node: ir.Node, op, state: OptimizerState) -> ReturnValue:
     if output is not None:
         state.set_sym_value(output, ir.Shape(gathered))
     if all(isinstance(d, int) for d in gathered):
-        return op.Constant(value_ints=ir.AttrInt64s("value_ints", gathered))
+        return _int64_constant(op, node, gathered)
     return None
 
 
@@ -550,7 +566,7 @@ def shape(node: ir.Node, op, state: OptimizerState) -> ReturnValue:
     if output is not None:
         state.set_sym_value(output, ir.Shape(shape_slice))
     if all(isinstance(d, int) for d in shape_slice):
-        return op.Constant(value_ints=ir.AttrInt64s("value_ints", list(shape_slice)))
+        return _int64_constant(op, node, list(shape_slice))
     return None
 
 
@@ -567,7 +583,7 @@ def size(node: ir.Node, op, state: OptimizerState) -> ReturnValue:
         if not isinstance(d, int):
             return None
         size *= d
-    return op.Constant(value_int=size)
+    return _int64_constant(op, node, size)
 
 
 def _move_initializers_to_graph(src: ir.Graph, dst: ir.Graph) -> None:
